@@ -249,6 +249,9 @@ func (s *Session) readHandshake(msg Message) error {
 		s.msgCache[2] = res.InitDone
 		s.cipherOut, s.cipherIn = res.CipherOut, res.CipherIn
 		s.remoteKey = res.RemoteKey
+		// counters below noncePostHandshake belong to the handshake. The initiator can also be
+		// completed by application data (RespDone lost), so the counter must be set here.
+		s.nonce = noncePostHandshake
 		s.hsIndex = 2 // the initiator doesn't know if the server got the initDone yet.
 	case !s.isInit && s.hsIndex == 1 && nonce == nonceInitDone:
 		res, err := readInitDone(s.hs, &s.remoteKey, s.cipherIn, s.cipherOut, msg)
